@@ -1317,6 +1317,8 @@ func prtEnumerate(s *prtState) {
 		tst(300, 252, ndn.SigConfig{Type: 200}),
 		tst(253, 252, ndn.SigConfig{Type: 200, KeyName: longKeyName}),
 		tst(72, 70, ndn.SigConfig{Type: 200, KeyName: keyName, NotBefore: &nb, NotAfter: &na}),
+		tst(252, 252, ndn.SigConfig{Type: 200, KeyName: keyName}), // the largest estimate whose Length fits one byte (boundary of MakeData's length rewrite)
+		tst(252, 1, ndn.SigConfig{Type: 200, KeyName: keyName}),
 		{label: "ecdsa", signer: sec.NewEccSigner(false, false, 0, ecKey, keyName), validate: ec, costly: true},
 		{label: "ecdsa-cert", signer: sec.NewEccSigner(true, false, time.Hour, ecKey, keyName), validate: ec, costly: true},
 		{label: "rsa", signer: sec.NewRsaSigner(false, false, 0, rsaKey, keyName), validate: rs, costly: true},
